@@ -265,9 +265,10 @@ class Session:
             self.outcomes.append(codes)
             return False
         if not r1.code.startswith("1"):
-            # no transfer: a client drops the data connection it prepared
+            # no transfer: a client drops the data connection it prepared (or keeps it for the command it gives next)
             self.outcomes.append(codes)
-            await self._close_data()
+            if not getattr(self, "keep_data_on_refusal", False):
+                await self._close_data()
             return True
         for bl in (between or []):
             rb = await p.cmd(bl)
